@@ -181,6 +181,11 @@ Ev(prog, e, st) ==
       [] e.k = "var" -> V(st, Lookup(st.env, e.n))
       \* a constant registered by the host: the registry (path -> value) is part of the program
       [] e.k = "gconst" -> V(st, prog.consts[e.p])
+      \* a constant declared by the script: the value of its initialiser, which sees no variables and (in the
+      \* programs of these checks) calls no host function; other constants may be used in it, in any declaration order
+      [] e.k = "kconst" ->
+            LET r == Ev(prog, prog.kconsts[e.n], [st EXCEPT !.env = <<NoVars>>]) IN
+            IF r.k # "v" THEN r ELSE V(st, r.v)
       [] e.k = "un" ->
             LET r == Ev(prog, e.e, st) IN
             IF r.k # "v" THEN r ELSE V(r.st, UnOp(e.op, e.ty, r.v))
